@@ -199,6 +199,13 @@ def run(ck, only=None):
     for i, c in enumerate(neutral):
         c.tag = f"K{70000 + i}"
     recs = recs + neutral
+    # very large records (both sides of 1 MiB, 16 MiB): a size threshold in how assertions are emitted must not drop any of them
+    huge = gen_c.enumerate_records(3, atoms=["char", "int", "llong", "huge1m", "huge1m1", "huge16m"], rattrs=["plain", "packed"])
+    huge = [c for c in huge if any(a.startswith("huge") for a in c.atoms) and sum(a.startswith("huge") for a in c.atoms) == 1 and (len(c.atoms) < 3 or ck.tier == "thorough" or c.atoms[1].startswith("huge"))]
+    for i, c in enumerate(huge):
+        c.tag = f"K{90000 + i}"
+    recs = recs + huge
+    ck.extra["huge_records"] = len(huge)
     if only:
         recs = [c for c in recs if c.cid == only.get("cid")]
     batches = [(f"b{i // BATCH}", recs[i:i + BATCH]) for i in range(0, len(recs), BATCH)]
